@@ -35,7 +35,7 @@ RUN_ACTIONS = ["Bind", "Assign", "Declare", "Branch", "EnterFor", "ForNext", "Re
 
 TIERS = {
     "quick": {"nrand": 150, "per_module": 80, "cfg": "Shadow_prog", "nwide": 40, "tab_rand": 300, "max_loop": 6, "full_styles": False},
-    "thorough": {"nrand": 1500, "per_module": 110, "cfg": "Shadow_progt", "nwide": 300, "tab_rand": 20000, "max_loop": 6, "full_styles": True},
+    "thorough": {"nrand": 600, "per_module": 100, "cfg": "Shadow_progt", "nwide": 200, "tab_rand": 5000, "max_loop": 6, "full_styles": True},
 }
 
 
